@@ -18,6 +18,7 @@ package main
 // expected one.
 
 import (
+	"bytes"
 	"encoding/json"
 	"fmt"
 	"math/rand"
@@ -28,6 +29,7 @@ import (
 	"strings"
 
 	"github.com/martian-lang/martian/martian/core"
+	"github.com/martian-lang/martian/martian/syntax"
 )
 
 type c10ForkCase struct {
@@ -405,8 +407,8 @@ func c10ForkOrder(c *Ctx, rt *core.Runtime) {
 			}
 			return true
 		}
-		ok := checkExpected(first[i], 0)
-		for k := 1; k < reps && ok; k++ {
+		checkExpected(first[i], 0)
+		for k, ok := 1, true; k < reps && ok; k++ {
 			got := c10ForkObserve(rt, c.Scratch, cs, k)
 			r.Evals++
 			if got != first[i] {
@@ -461,6 +463,57 @@ func c10ForkOrder(c *Ctx, rt *core.Runtime) {
 					Input: map[string]interface{}{"case": cs.Name, "class": cs.Class, "program": cs.Src, "node": cs.Fqid, "outs": cs.Outs},
 					Impl:  map[string]string{"this_process": da, "subprocess": db}, Expect: "the same sequence of fork ids in every process",
 					Broken: "Props.C10.forkKeyParts_order_independent (fork keys enumerated in Go map order)"})
+			}
+		}
+	}
+}
+
+// Provocations for sites whose sort was only guarded by the site-list obligation: evaluated
+// by c10RunProvocations (40x quick / 200x thorough); the returned text must be byte-identical.
+func c10ForkSiteProvocations(c *Ctx, out map[string]func() string) {
+	const n = 13
+	// ResolvedBindingMap.EncodeJSON: the resolved inputs of a stage with 13 parameters
+	{
+		var ins, binds []string
+		for i := 0; i < n; i++ {
+			ins = append(ins, fmt.Sprintf("    in  int p%02d,", (i*5)%n))
+			binds = append(binds, fmt.Sprintf("        p%02d = self.x,", (i*7)%n))
+		}
+		src := "stage WIDE(\n" + strings.Join(ins, "\n") + "\n    out int r,\n    src comp \"bin/wide\",\n)\n\n" +
+			"pipeline TOP(\n    in  int x,\n    out int r,\n)\n{\n    call WIDE(\n" + strings.Join(binds, "\n") +
+			"\n    )\n\n    return (\n        r = WIDE.r,\n    )\n}\n\ncall TOP(\n    x = 1,\n)\n"
+		_, _, ast, err := syntax.ParseSourceBytes([]byte(src), "verif.mro", nil, false)
+		if err != nil {
+			c.Res.note("ResolvedBindingMap.EncodeJSON provocation does not compile: %v", err)
+		} else if graph, err := ast.MakeCallGraph("ID.ps.", ast.Call); err != nil {
+			c.Res.note("ResolvedBindingMap.EncodeJSON provocation: %v", err)
+		} else if node := graph.NodeClosure()["ID.ps.TOP.WIDE"]; node == nil {
+			c.Res.note("ResolvedBindingMap.EncodeJSON provocation: node not found")
+		} else {
+			out[fmt.Sprintf("ResolvedBindingMap.EncodeJSON(%d inputs)", n)] = func() string {
+				var buf bytes.Buffer
+				if err := node.ResolvedInputs().EncodeJSON(&buf); err != nil {
+					return "ERR:" + err.Error()
+				}
+				return buf.String()
+			}
+		}
+	}
+	// Metadata.serializeState: 14 metadata files in a fork's directory
+	if rt, err := core.VerifNewLocalRuntime(); err == nil {
+		src := "stage ST(\n    in  int x,\n    out int r,\n    src comp \"bin/st\",\n)\n\ncall ST(\n    x = 1,\n)\n"
+		psdir := filepath.Join(c.Scratch, "c10meta")
+		ps, err := rt.InvokePipeline(src, filepath.Join(c.Scratch, "meta.mro"), "ps", psdir, nil, "verif", nil, nil)
+		if err != nil {
+			c.Res.note("Metadata.serializeState provocation: %v", err)
+		} else {
+			files := []string{"zeta", "args", "outs", "log", "stdout", "stderr", "jobinfo", "complete", "perf", "alpha", "Mid", "chunk_defs", "vdrkill", "b2"}
+			out[fmt.Sprintf("Metadata.serializeState(%d files)", len(files))] = func() string {
+				names, err := ps.VerifC10MetadataNames("ID.ps.ST", files)
+				if err != nil {
+					return "ERR:" + err.Error()
+				}
+				return strings.Join(names, " ")
 			}
 		}
 	}
